@@ -345,7 +345,7 @@ func TestC19Invalid(t *testing.T) {
 
 func TestC19Rest(t *testing.T) {
 	col := stats.New("C19", t.Name(),
-		"the REST patch endpoint of the real server on a document key that is absent / exists with a stored snapshot / exists WITHOUT a stored snapshot (the background snapshot update is made to fail by the fake database's fault plan), with 0-2 subscribed clients, chains of 1-3 patches to generated targets (objects without nulls, hostile keys) interleaved with client pushes; "+
+		"the REST patch endpoint of the real server on a document key that is absent / exists with a stored snapshot / exists WITHOUT a stored snapshot (the background snapshot update is made to fail by the fake database's fault plan), with 0-2 subscribed clients, chains of 1-3 patches to generated targets (objects without nulls, hostile keys) interleaved with client pushes; half of the patches are HTTP requests (POST /api/v1/collections/<c>/documents/<k>, body {\"json\": ...}) through the generated grpc-gateway mux that the server's REST port serves, registered on the environment's gRPC listener; the others call the service method (also when the gateway's route does not match the name: keys with '/'); "+
 			"oracle: the call is answered; the returned JSON equals the target; the patch operations are appended to the stored log (invariants intact, no snapshot operation inside the log); after settling every subscribed client and the server's rebuild equal refmodel(log), and equal the last target when no client pushed after it; "+
 			"non-trivial = the key existed with stored operations and no stored snapshot, or a client pushed between two patches; distinct = hash of the scenario")
 	checkProp(t, "C19", col, func(c *caseCtx) {
@@ -437,7 +437,34 @@ func TestC19Rest(t *testing.T) {
 			c.j.add(map[string]interface{}{"k": "rest-patch", "target": string(tb)})
 			canon.WriteString("patch=" + string(tb) + ";")
 			w.env.WaitBackground(3 * time.Second)
-			resp, e, timedOut := w.env.PatchDocument(&model.PatchMessage{Collection: w.col, Key: k.Name, Json: string(tb)}, l1Deadline)
+			// half of the patches travel the whole way: HTTP + JSON -> grpc-gateway -> gRPC -> service (what
+			// server/server/rest.go serves); the others call the service method
+			var resp *model.PatchMessage
+			var e error
+			var timedOut bool
+			if rapid.Bool().Draw(rt, fmt.Sprintf("over_http%d", pi)) {
+				rr, herr := w.env.PatchDocumentREST(w.col, k.Name, string(tb), l1Deadline)
+				switch {
+				case herr != nil && rr == nil:
+					c.failf("HARNESS-ERROR: the REST gateway cannot be set up: %v", herr)
+				case herr != nil:
+					c.failf("the REST endpoint answered HTTP %d with a body that is not JSON: %v", rr.Status, herr)
+				case rr.TimedOut:
+					timedOut = true
+				case rr.Status == 200:
+					resp = &model.PatchMessage{Json: rr.JSON}
+					w.labels["patch-over-http"] = true
+				case rr.Status == 404 || rr.Status == 405 || rr.Status == 400 && strings.Contains(rr.Body, "type mismatch"):
+					// the route does not match this collection / key name (path escaping is the gateway's business,
+					// not a statement of C19): the service method is called instead
+					w.labels["name-not-routable-over-http"] = true
+				default:
+					e = fmt.Errorf("HTTP %d: %s", rr.Status, rr.Body)
+				}
+			}
+			if resp == nil && e == nil && !timedOut {
+				resp, e, timedOut = w.env.PatchDocument(&model.PatchMessage{Collection: w.col, Key: k.Name, Json: string(tb)}, l1Deadline)
+			}
 			if timedOut {
 				c.failf("the REST patch was never answered")
 			}
@@ -508,7 +535,13 @@ func TestC19Rest(t *testing.T) {
 				}
 			}
 		}
-		col.Case(base == "without-snapshot" || pushedBetween, canon.String(), append([]string{"base=" + base, fmt.Sprintf("clients=%d", nclients), dep}, map[bool][]string{true: {"patch-of->1000-operations"}, false: nil}[largeTarget]...), func() interface{} {
+		extra := map[bool][]string{true: {"patch-of->1000-operations"}, false: nil}[largeTarget]
+		for _, l := range []string{"patch-over-http", "name-not-routable-over-http"} {
+			if w.labels[l] {
+				extra = append(extra, l)
+			}
+		}
+		col.Case(base == "without-snapshot" || pushedBetween, canon.String(), append([]string{"base=" + base, fmt.Sprintf("clients=%d", nclients), dep}, extra...), func() interface{} {
 			return map[string]interface{}{"scenario": canon.String()}
 		})
 	})
